@@ -1,7 +1,7 @@
 SPECIFICATION Spec
 CONSTANTS
   MaxKids = 2
-  Places = {"direct", "wrapped", "nested"}
+  Places = {"direct", "wrapped", "nested", "encwrap"}
   Slot2Places = {"direct"}
   Slot2Sigs = {"none", "own"}
   RIds = {"r1", "rX", "a1"}
